@@ -67,7 +67,7 @@ MANIFEST = {
             "regular-expression subscriptions, every matching relation) / broadcast x recipient states x what happens "
             "before the loop reads (deliver, stop, stay paused until loop end, quit+flush, deregister) x pipe capacity; "
             "per job the auto-free bit, errno and quit code are free; oracle: recording handlers vs the eligible set "
-            "computed at send time, allocator-hook count of payload releases, CBMC's own use-after-free / double-free checks",
+            "computed at send time, allocator-hook count of payload releases, CBMC's own use-after-free / double-free checks; the loop ending on its own with every recipient PAUSED (nothing turns up in the next run)",
     "note": "call order and recipient set are per-job constants (a symbolic heap shape does not finish, DESIGN.md 2); OS "
             "model and regex relation replace kernel and glibc; bounds 3 modules, <= 3 messages, pipe capacity <= 3",
 }
